@@ -985,3 +985,128 @@ Proof.
   unfold request_allowed in F. rewrite Hreq3 in F.
   apply sat_sub_ge in F; [exact F| |]; unfold ps_poller_request_interval, max_i64, min_i64; lia.
 Qed.
+
+(* ---------- the capability of a stored peer changes only by a poll from that peer ---------- *)
+Definition same_capability (r r' : record) : Prop :=
+  exists p p', to_peer r = Some p /\ to_peer r' = Some p' /\ p_cap p' = p_cap p /\
+               p_last_seen p' = p_last_seen p /\ p_address p' = p_address p.
+
+Lemma reload_modified r p st lp ls :
+  to_peer r = Some p -> st <> ""%string ->
+  to_peer (peer_to_record (Peer (p_address p) (p_cap p) st lp ls)) = Some (Peer (p_address p) (p_cap p) st lp ls).
+Proof.
+  intros Hp Hst. destruct (to_peer_wf _ _ Hp) as [[_ Hc] Hn].
+  rewrite save_reload by (split; [exact Hst|exact Hc]). f_equal.
+  unfold norm_peer in *. simpl. destruct (p_cap p) as [c|] eqn:Ec; [|reflexivity].
+  destruct (has_capability_data (snapshot_of_cap c)); [reflexivity|].
+  exfalso. rewrite <- Hn in Ec. simpl in Ec. discriminate.
+Qed.
+
+Lemma to_peer_status_nonempty r p : to_peer r = Some p -> p_status p <> ""%string.
+Proof. intros H. destruct (to_peer_wf _ _ H) as [[Hs _] _]. exact Hs. Qed.
+
+Lemma st_get_del_same k st : st_get k (st_del k st) = None.
+Proof. apply st_get_none_iff. intros H. apply has_key_del in H. destruct H as [H _]. congruence. Qed.
+
+Lemma store_capability_message_shape now s from payload :
+  store_capability_message now s from payload = s_store s \/
+  exists rec, store_capability_message now s from payload = st_put from rec (s_store s).
+Proof.
+  unfold store_capability_message. destruct payload as [sn|]; [|left; reflexivity].
+  destruct (to_capability sn); [|left; reflexivity]. destruct (mem from (s_susp s)); [left; reflexivity|].
+  destruct (match st_get from (s_store s) with None => Some new_peer | Some r => to_peer r end); [|left; reflexivity].
+  right. eexists. reflexivity.
+Qed.
+
+Lemma cleanup_frame now timeout keep st k r :
+  NoDup (keys st) -> st_get k st = Some r ->
+  let st' := fst (cleanup_expired_except now timeout keep st) in
+  st_get k st' = Some r \/ (exists r', st_get k st' = Some r' /\ same_capability r r') \/ st_get k st' = None.
+Proof.
+  intros Hnd Hg. unfold cleanup_expired_except. destruct (timeout <=? 0); [left; exact Hg|].
+  destruct (cleanup_loop now timeout keep st) as [[st' n]|] eqn:El; simpl; [|left; exact Hg].
+  destruct (cleanup_loop_spec _ _ _ _ _ _ El) as (I1 & _ & _ & I4).
+  destruct (st_get k st') as [r'|] eqn:Eg; [|right; right; reflexivity].
+  destruct (I1 _ _ (st_get_in _ _ _ Eg)) as (r0 & Hin & Hc).
+  assert (r0 = r). { pose proof (in_st_get_nodup _ _ _ Hnd Hin) as E. congruence. } subst r0.
+  destruct Hc as [[_ ->]|(_ & p & Hp & _ & ->)]; [left; reflexivity|].
+  right. left. eexists. split; [reflexivity|]. exists p, p. repeat split; auto. eapply reload_fixpoint; eauto.
+Qed.
+
+Lemma step_capability_frame now s o k r :
+  NoDup (keys (s_store s)) -> st_get k (s_store s) = Some r ->
+  (forall ty pl, o <> OMsg k ty pl) -> (forall r0, o <> OPutRaw k r0) ->
+  let st' := s_store (state_after (step now s o)) in
+  st_get k st' = Some r \/ (exists r', st_get k st' = Some r' /\ same_capability r r') \/ st_get k st' = None.
+Proof.
+  intros Hnd Hg Hm Hp. unfold state_after. destruct o; simpl; try (left; exact Hg).
+  - destruct (handle_message now s from ty payload) as [s' ms] eqn:E. simpl.
+    pose proof (handle_message_store now s from ty payload) as Hs. rewrite E in Hs. simpl in Hs. rewrite Hs.
+    destruct (_ && _); [|left; exact Hg].
+    destruct (store_capability_message_shape now s from payload) as [->|(rec & ->)]; [left; exact Hg|].
+    left. rewrite st_get_put_other; [exact Hg|]. intros ->. eapply Hm; reflexivity.
+  - destruct (poll_peers now force s) as [s' ms] eqn:E. simpl.
+    destruct (poll_peers_store now force s) as [Hs|(peers & Hl & Hs)]; rewrite E in Hs; simpl in Hs; rewrite Hs; [left; exact Hg|].
+    destruct (poll_known now ps_poller_timeout force s peers (s_store s)) as [st' ms1] eqn:Ep.
+    destruct (poll_known_spec _ _ _ _ _ _ _ _ Ep) as (I1 & _). simpl.
+    destruct (I1 k) as [Eq|(p & Hin & Eq)]; [left; congruence|].
+    destruct (load_all_in _ _ _ _ Hl Hin) as (r1 & Hin1 & Hp1).
+    assert (r1 = r). { pose proof (in_st_get_nodup _ _ _ Hnd Hin1) as E'. congruence. } subst r1.
+    right. left. eexists. split; [exact Eq|].
+    exists p, (polled_peer now p). split; [exact Hp1|]. split; [|auto].
+    unfold polled_peer. apply (reload_modified r); [exact Hp1|]. eapply to_peer_status_nonempty; eauto.
+  - unfold poller_cleanup. destruct (s_listfail s); [left; exact Hg|].
+    pose proof (cleanup_frame now ps_poller_timeout (s_conn s) (s_store s) k r Hnd Hg) as Hc.
+    destruct (cleanup_expired_except now ps_poller_timeout (s_conn s) (s_store s)). simpl in *. exact Hc.
+  - pose proof (cleanup_frame now timeout keep (s_store s) k r Hnd Hg) as Hc.
+    destruct (cleanup_expired_except now timeout keep (s_store s)). simpl in *. exact Hc.
+  - left. rewrite st_get_put_other; [exact Hg|]. intros ->. eapply Hp; reflexivity.
+  - destruct (string_dec k p) as [->|Hne].
+    + right. right. apply st_get_del_same.
+    + left. rewrite st_get_del_other; [exact Hg|exact Hne].
+Qed.
+
+(* a reload (restart) leaves the persisted records untouched *)
+Lemma step_reload_store now s : s_store (state_after (step now s OReload)) = s_store s.
+Proof. reflexivity. Qed.
+
+(* ---------- non-vacuity ---------- *)
+Definition ex_snap (v : Z) : snapshot := Snap v ["btc"%string] true 0 0 0 0.
+Definition ex_k : string := "02aa"%string.
+
+Example ex_poll_then_lower_then_higher :
+  let s := run init_state
+    [(1, OMsg ex_k ps_msgtype_poll (Some (ex_snap 7)));
+     (2, OMsg ex_k ps_msgtype_request_poll (Some (ex_snap 6)));
+     (3, OReload)] in
+  option_map (fun r => sn_version (r_snap r)) (st_get ex_k (s_store s)) = Some 7 /\
+  has_compatible_peer s ex_k = true /\
+  option_map (fun r => sn_version (r_snap r))
+     (st_get ex_k (s_store (run s [(4, OMsg ex_k ps_msgtype_poll (Some (ex_snap 8)))]))) = Some 8.
+Proof. vm_compute. repeat split. Qed.
+
+Example ex_cleanup_removes_only_disconnected :
+  let s := run init_state
+    [(0, OMsg "a"%string ps_msgtype_poll (Some (ex_snap 7)));
+     (0, OMsg "b"%string ps_msgtype_poll (Some (ex_snap 7)));
+     (1, OConnect "a"%string true);
+     (ps_cleanup_timeout + 1, OCleanup)] in
+  keys (s_store s) = ["a"%string].
+Proof. vm_compute. reflexivity. Qed.
+
+Example ex_request_interval :
+  let s1 := run init_state [(0, OConnect ex_k true)] in
+  unknown_request 5 s1 (OPoll false) ex_k /\
+  let s2 := state_after (step 5 s1 (OPoll false)) in
+  quiet_run ex_k s2 [(6, OPoll false)] /\
+  ~ unknown_request (5 + ps_request_poll_interval - 1) (run s2 [(6, OPoll false)]) (OPoll false) ex_k /\
+  unknown_request (5 + ps_request_poll_interval) (run s2 [(6, OPoll false)]) (OPoll false) ex_k.
+Proof.
+  split; [exists false, true; vm_compute; intuition|].
+  split.
+  - simpl. split; [split; [discriminate|intros f _; vm_compute; reflexivity]|]. split; [|exact I].
+    intros (f & ok & E & Hin & _). vm_compute in Hin. exact Hin.
+  - split.
+    + intros (f & ok & E & Hin & _). vm_compute in Hin. exact Hin.
+    + exists false, true. vm_compute. intuition.
+Qed.
